@@ -22,3 +22,17 @@ func (server *Server) VerifCommandNames() []string {
 	sort.Strings(names)
 	return names
 }
+
+// VerifListenAddrs returns the addresses the plain and the TLS listener are bound to ("" when not listening).
+func (server *Server) VerifListenAddrs() (string, string) {
+	server.lifecycleMutex.Lock()
+	defer server.lifecycleMutex.Unlock()
+	plain, secure := "", ""
+	if server.portListener != nil {
+		plain = server.portListener.Addr().String()
+	}
+	if server.tlsPortListener != nil {
+		secure = server.tlsPortListener.Addr().String()
+	}
+	return plain, secure
+}
